@@ -14,6 +14,7 @@
   * `NearBelow.rel`    : `0 ≤ v - w·2^E < (2^-63 + 2^-111)·v`   (so `|w·2^E - v| < 2^-62·v`)
   * `Float64_nan`, `Float64_inf`, `Float64_zero'`, `Float64_fin` : `Gen.Decimal.Float64 d` for `𝔳[d]` NaN, ±Inf,
                         ±0, finite non-zero
+  * `Float64_pair`      : main path: `2^63 ≤ w`, `0 ≤ |d| - w·2^E < (2^-63 + 2^-111)·|d|`
   * `Float64_total`, `Float32_total`, `Float32_of_Float64`
 -/
 import D128.Proofs.FloatToLoops
@@ -341,6 +342,30 @@ theorem Float64_fin (d : Decimal) (n : Bool) (c : Nat) (x : Int) (h : 𝔳[d] = 
   · exact absurd rfl hc0
   · rw [Float64_eq d h3 h5]
     exact finitePath_spec _ _ _ (Nat.pos_of_ne_zero hc) (Enc.decompose_exp_nonneg d) (Enc.decompose_exp_le d h3)
+
+/-- the pair `(w, E)` handed to `float64(·)` / `math.Ldexp` on the main path: `2^63 ≤ w`, and `w·2^E` is below `|d|`
+    by less than `(2^-63 + 2^-111)·|d|` (in particular `|w·2^E - |d|| < 2^-62·|d|`) -/
+theorem Float64_pair (d : Decimal) (n : Bool) (c : Nat) (x : Int) (h : 𝔳[d] = .fin n c x) (hc0 : c ≠ 0)
+    (h1 : -358 ≤ x) (h2 : x ≤ 308) :
+    ∃ (w : UInt64) (E : Int16), Decimal.Float64 d = .ok (result n w E) ∧ 2 ^ 63 ≤ w.toNat ∧
+      0 ≤ (c : ℚ) * 10 ^ x - (w.toNat : ℚ) * 2 ^ E.toInt ∧
+      (c : ℚ) * 10 ^ x - (w.toNat : ℚ) * 2 ^ E.toInt < (1 / 2 ^ 63 + 1 / 2 ^ 111) * ((c : ℚ) * 10 ^ x) := by
+  obtain ⟨w, E, e, hn⟩ := (Float64_fin d n c x h hc0).2.2 h1 h2
+  have hv : (0 : ℚ) < (c : ℚ) * 10 ^ x :=
+    mul_pos (by exact_mod_cast Nat.pos_of_ne_zero hc0) (zpow_pos (by norm_num) _)
+  exact ⟨w, E, e, hn.1, (hn.rel hv).1, (hn.rel hv).2⟩
+
+/-- `0.1000000000000000055511151231257827` takes the main path -/
+example : ∃ (w : UInt64) (E : Int16),
+    Decimal.Float64 ⟨4145161186368179427, 3457692824022322579⟩ = .ok (result false w E) ∧
+      NearBelow (((1000000000000000055511151231257827 : ℕ) : ℚ) * 10 ^ (-34 : ℤ)) w.toNat E.toInt :=
+  (Float64_fin _ _ _ _ (by decide) (by decide)).2.2 (by norm_num) (by norm_num)
+
+/-- `1e-400` (biased exponent 5776) takes the first early-out, `-1e400` (biased exponent 6576) the second -/
+example : Decimal.Float64 ⟨1, 3251598930961498112⟩ = .ok (zeroRes false) :=
+  (Float64_fin _ false 1 (-400) (by decide) (by decide)).1 (by norm_num)
+example : Decimal.Float64 ⟨1, 12925330930553323520⟩ = .ok (infRes true) :=
+  (Float64_fin _ true 1 400 (by decide) (by decide)).2.1 (by norm_num)
 
 /-- `Float64` never panics and all its loops terminate -/
 theorem Float64_total (d : Decimal) : ∃ r, Decimal.Float64 d = .ok r := by
